@@ -2,12 +2,21 @@
   Tie B for C02: the definitions regenerated from the source text of
   `TDGLSolver.solve_for_psi_squared` (Tdgl/Generated/StepGen.lean) equal the hand-written model
   `Tdgl.Step` over ℝ.  Re-checked on every run; fails to build when the source arithmetic changes.
+
+  The proofs do not mention the local variable names of the source: the translator names the two definitions whose
+  roles it identified by structure (`gen_z`, `gen_w`: in the returned `W - Z * X`) and provides the macros
+  `gen_unfold_all` / `gen_unfold_rest` for everything else, so renaming, inlining or splitting locals in the source
+  leaves these theorems provable as long as the arithmetic is the same up to ring identities.
 -/
 import Mathlib.Tactic.Ring
 import Mathlib.Tactic.FieldSimp
 import Tdgl.Lemmas.RealInst
 import Tdgl.Step
 import Tdgl.Generated.StepGen
+
+set_option linter.unusedSimpArgs false
+set_option linter.unusedTactic false
+set_option linter.unreachableTactic false
 
 open Tdgl Tdgl.Gen
 
@@ -16,24 +25,33 @@ namespace Tdgl.C02
 /-- generated `z` = documented `z` -/
 theorem C02_bridge_z (psi : Cx ℝ) (a mu eps gamma u dt : ℝ) (lap : Cx ℝ) :
     gen_z psi a mu eps gamma u dt lap = zOf psi mu gamma dt := by
+  gen_unfold_all
   apply Cx.ext' <;>
-    simp only [gen_z, gen_U, zOf, linkU, Cx.mul, Cx.smul, Cx.expNegI] <;> ring
+    simp only [zOf, linkU, Cx.mul, Cx.smul, Cx.add, Cx.sub, Cx.neg, Cx.expNegI] <;> ring
 
 /-- generated `w` = documented `w` -/
 theorem C02_bridge_w (psi : Cx ℝ) (a mu eps gamma u dt : ℝ) (lap : Cx ℝ) :
     gen_w psi a mu eps gamma u dt lap = wOf psi a mu eps gamma u dt lap := by
-  have hz := C02_bridge_z psi a mu eps gamma u dt lap
-  unfold gen_w wOf
-  rw [hz]
+  gen_unfold_all
   apply Cx.ext' <;>
-    simp only [gen_U, linkU, Cx.add, Cx.mul, Cx.smul, Cx.expNegI] <;> ring
+    simp only [wOf, zOf, linkU, Cx.add, Cx.sub, Cx.neg, Cx.mul, Cx.smul, Cx.expNegI] <;> ring
+
+private theorem guarded_congr {A A' : ℝ} {x x' : Cx ℝ × ℝ} (hA : A = A') (hx : x = x') :
+    (if A < 0 then none else some x) = (if A' < 0 then none else some x') := by
+  subst hA hx; rfl
 
 /-- the generated function is the model function -/
 theorem C02_bridge_step (psi : Cx ℝ) (a mu eps gamma u dt : ℝ) (lap : Cx ℝ) :
     stepSiteGen psi a mu eps gamma u dt lap = stepSite psi a mu eps gamma u dt lap := by
   have hz := C02_bridge_z psi a mu eps gamma u dt lap
   have hw := C02_bridge_w psi a mu eps gamma u dt lap
-  unfold stepSiteGen stepSite solveSite gen_psi_new gen_new_sq_psi gen_discriminant gen_two_c_1 gen_c gen_w2
-  rw [hz, hw]
+  unfold stepSite solveSite
+  gen_unfold_rest
+  simp only [hz, hw]
+  all_goals
+    first
+      | rfl
+      | (refine guarded_congr (by ring) ?_
+         refine Prod.ext (Cx.ext' ?_ ?_) ?_ <;> simp only [Cx.sub, Cx.smul] <;> ring_nf)
 
 end Tdgl.C02
